@@ -137,12 +137,15 @@ class MainTr:
         fail("main", e, "(condition)")
         return ""
 
-    def fatal_term(self, call: ast.Call) -> str:
+    def fatal_term(self, call: ast.Call, env=None) -> str:
         code = self.fatal_default_code
         args = list(call.args)
         for kw in call.keywords:
             if kw.arg == "code" and isinstance(kw.value, ast.Constant) and isinstance(kw.value.value, int):
                 code = kw.value.value
+            elif kw.arg == "code" and isinstance(kw.value, ast.Name) and env is not None \
+                    and env.get(kw.value.id, ("",))[0] == "nat":
+                code = f"(Z.of_nat {env[kw.value.id][1]})"      # a count as exit code: see CliBase.process_status
             elif kw.arg == "s":
                 args.insert(0, kw.value)
             else:
@@ -194,7 +197,7 @@ class MainTr:
         if isinstance(s, ast.Return) and s.value is None:
             return f"(AReturn {env['__rendered__'][1]})"
         if isinstance(s, ast.Expr) and self.is_call(s.value, "fatal"):
-            return self.fatal_term(s.value)  # NoReturn
+            return self.fatal_term(s.value, env)  # NoReturn
         if isinstance(s, (ast.Assign, ast.AnnAssign)):
             tgt = s.targets[0] if isinstance(s, ast.Assign) else s.target
             if not isinstance(tgt, ast.Name) or s.value is None:
